@@ -275,6 +275,14 @@ def random_case(draw):
             r.append(draw(st.sampled_from(r)))
     r = sorted(round(x, 1) if fl else x for x in r)
     if draw(st.integers(0, 7)) == 0:
+        # labels far down a very long molecule (a contig of tens of Mbp, or the tail fragment of one): query coordinates
+        # beyond 2^24, the reference labels moved along so that the geometry stays the same
+        F = draw(st.sampled_from([2 ** 24 + 1, 2 ** 25 + 3, 30_000_001, 2 ** 27 + 9]))
+        q = [round(x + F, 1) if fl else x + F for x in q]
+        r = [round(x + F, 1) if fl else x + F for x in r]
+        qlen = qlen + F
+        end = end + F
+    if draw(st.integers(0, 7)) == 0:
         # a placement far down a chromosome (beyond 2^24 / 2^27 / 2^31 bp): the same geometry, every reference coordinate and
         # the seed offset moved by one amount
         far = draw(st.sampled_from([2 ** 24 - 3, 2 ** 24 + 1, 17_000_001, 2 ** 25 + 7, 2 ** 27 + 5, 152_600_007, 2 ** 31 + 11]))
